@@ -26,6 +26,14 @@ CLAIMS = {
          "TLC model checking of Pdb.tla (IoFail actions) + behaviour replay with injected I/O failures"),
  "C04": ("Pdb.tla cursor actions (abstract ordered-map iterator Start/End/At/Seeked over the latest committed state) checked with the pipeline model; TLC-generated behaviours with seek/first/last/next/prev, direction changes and commits/pipeline steps between cursor calls replayed through a real BTreeIterator; long recorded histories over larger key universes with the iterator open across commits validated by TLC (every returned key/value)",
          "TLC model checking of Pdb.tla (cursor actions) + behaviour replay + TLC trace validation"),
+ "C15": ("Workers.tla: clients, four workers and the dropping thread with explicit mutexes and condition variables (a notify without the waiter's mutex can be lost): deadlock freedom with an I/O fault, liveness (commit returns, all logged, drop terminates) under weak fairness, necessity configs for the three repairs; the three counterexample schedules are forced on the real threads through the hook sink and must not hang; commit storms / 5 MiB transactions / immediate drops under a watchdog",
+         "TLC model checking of Workers.tla (deadlock + liveness) + forced schedules replayed on the real threads"),
+ "C17": ("Admin.tla: TLC enumerates every valid column option record as a round-trip behaviour (create, reopen with the same record, reopen with each single field changed) and random administration histories (add/drop/reset/clear column, wrong column count, missing database, crash images with pending logs); all replayed into the real code with file fingerprints for failed opens and contents of every plain column after every step",
+         "TLC enumeration/simulation of Admin.tla + behaviour replay"),
+ "C18": ("Lock.tla: actors (handles of one process and a child process) x open (lock then recovery) / commit / drop / die, AtMostOneLive, Reopenable and FailedOpenChangesNothing model-checked; generated behaviours replayed with real handles and child processes (SIGKILL for die), failed opens must return Error::Locked and leave all files byte-identical; racing opens from 4 threads",
+         "TLC model checking of Lock.tla + behaviour replay with threads and child processes"),
+ "C20": ("Migrate.tla: all source histories x option pairs x overwrite x forced selection with NoKeyLost / CountsCarryOver / SourceKept model-checked; generated behaviours replayed through parity_db::migrate with both databases projected (values and counts); a source with a pending index growth is a recorded known finding (F10)",
+         "TLC model checking of Migrate.tla + behaviour replay"),
 }
 PENDING_REASON = "check under construction in this round (spec module planned in DESIGN.md); not yet claimed"
 props = [json.loads(l) for l in open(os.path.join(V, "properties.jsonl"))]
